@@ -1400,6 +1400,10 @@ func genForge(g *hx.Gen, n int) {
 			toks = append(toks, t)
 		}
 		first := r.PickStr("a", "b")
+		pattern := r.Chance(1, 3) // the their-only-eviction history below needs the key ids an AKE started by a leaves
+		if pattern {
+			first = "a"
+		}
 		run(fmt.Sprintf("q%s.%s", first, hx.Hex(commitDigest(mix(seed, 0)))))
 		for j := 0; j < 4; j++ {
 			run("da")
@@ -1407,7 +1411,7 @@ func genForge(g *hx.Gen, n int) {
 		}
 		// the attacker first makes the victim derive keys for every key-id pair of its window: calcDataKeys
 		// fills a slot before the MAC is checked (the forgeries themselves are rejected)
-		plant := r.Chance(2, 3)
+		plant := r.Chance(2, 3) && !pattern
 		if plant {
 			run("sb." + hx.Hex([]byte("p0")))
 			run("da")
@@ -1439,7 +1443,7 @@ func genForge(g *hx.Gen, n int) {
 				}
 			}
 		}
-		if r.Chance(1, 2) {
+		if pattern {
 			// the shortest honest history (found by exhaustive search over the key-id ratchet) in which a slot is
 			// retired by the PEER's key rotation alone: crossing messages
 			for _, t := range []string{"sa", "sb", "da", "sa", "db", "sb", "da", "sa", "db", "db"} {
@@ -1451,7 +1455,7 @@ func genForge(g *hx.Gen, n int) {
 			}
 			g.Stat("forge.their-only-eviction-pattern")
 		}
-		quick := r.Chance(1, 2) // forge right after the key is out (before the cache slot can be recycled)
+		quick := pattern || r.Chance(1, 2) // forge right after the key is out (before the cache slot can be recycled)
 		for j, steps := 0, r.Range(4, 16); j < steps && !quick; j++ {
 			if r.Intn(3) == 0 {
 				sendRec(r.PickStr("a", "b"))
@@ -1467,9 +1471,14 @@ func genForge(g *hx.Gen, n int) {
 		if quick {
 			flush = []string{"b", "a"}
 		}
+		if pattern {
+			flush = []string{"b"}
+		}
 		for _, from := range flush { // flush collected old MAC keys onto the wire
 			sendRec(from)
-			run("d" + map[string]string{"a": "b", "b": "a"}[from])
+			if !pattern { // (in the pattern case nothing more is delivered: the retired slot must still be in the cache)
+				run("d" + map[string]string{"a": "b", "b": "a"}[from])
+			}
 		}
 		if plant { // fresh forgeries authenticated with each revealed key, for every small key-id pair
 			for _, victim := range []string{"a", "b"} {
